@@ -1010,6 +1010,11 @@ class VMDKInspector(FileInspector):
             LOG.warning('Unsupported VMDK format %r', self.vmdktype)
             return 0
 
+        if not self.has_region('header'):
+            # Text-only descriptor: there is no sparse header that would
+            # tell us the size
+            return 0
+
         # If we have the descriptor, we definitely have the header
         _sig, _ver, _flags, sectors, _grain, _desc_sec, _desc_num = (
             struct.unpack('<IIIQQQQ', self.region('header').data[:44]))
